@@ -140,6 +140,7 @@ int main(int argc, char **argv) {
     for (uint64_t i = first; i < first + count; i++) {
         uint64_t sd = mix64(base, i);
         printf("BEGIN %llu\n", (unsigned long long) sd); fflush(stdout);
+        opts.setu("run_index", i);
         Plan p = s->gen(sd, opts);
         RunResult r;
         s->exec(p, r);
